@@ -534,7 +534,10 @@ while time.time() < deadline:
         marker = [n for n in names if n.startswith('Marker')]
         rec = {'pid': os.getpid(), 'src': os.path.basename(src), 't0': t0, 't1': time.monotonic_ns(), 'marker': marker, 'n': len(names)}
     except BaseException as e:
-        rec = {'pid': os.getpid(), 'src': os.path.basename(src), 't0': t0, 't1': time.monotonic_ns(), 'exc': '%%s: %%s' %% (type(e).__name__, e)}
+        import traceback
+        where = [f.name for f in traceback.extract_tb(e.__traceback__) if f.filename.endswith('cachestore.py')]
+        rec = {'pid': os.getpid(), 'src': os.path.basename(src), 't0': t0, 't1': time.monotonic_ns(), 'exc': '%%s: %%s' %% (type(e).__name__, e),
+               'where': where[0] if where else None}
     log.write(json.dumps(rec) + '\n')
     n += 1
 '''
@@ -641,7 +644,9 @@ def stress(seed, seconds, nworkers, crossfs):
                 src = [s for s in sources if os.path.basename(s) == rec['src']][0]
                 if 'exc' in rec:
                     out['exceptions'] += 1
-                    out['viol'].append(('stress-exception:' + rec['exc'].split(':')[0], '_parse_include raised %s' % rec['exc']))
+                    # same key as the scheduled workload uses for an exception escaping that CacheStore method
+                    key = ('exception:%s:%s' % (rec['where'], rec['exc'].split(':')[0])) if rec.get('where') in ('store', 'load') else 'stress-exception:' + rec['exc'].split(':')[0]
+                    out['viol'].append((key, '_parse_include raised %s (inside CacheStore.%s)' % (rec['exc'], rec.get('where'))))
                     continue
                 if len(rec['marker']) != 1 or rec['n'] != width + 1:
                     out['viol'].append(('stress-torn', 'parse has markers %r and %d names (expected 1 and %d)' % (rec['marker'], rec['n'], width + 1)))
